@@ -220,6 +220,42 @@ def xp1(F, R, only=None):
                 bad = [e for e in evs if excludes(e.facts, q, 0) is None and not is_test_call(e)]
                 ok = bool(evs) and not bad
                 how = "in-loop test"
+            if ok and it.form == "loop" and name in ("to_xml", "to_dot", "fmt"):
+                # ... and every present vertex gets its entry, with or without data: what is appended to the document made before the
+                # loop (the root element, the vector of lines) is appended whatever the vertex's read status
+                ALLV = frozenset(["Empty", "Stored", "Taken"])
+                cover, n_out = frozenset(), 0
+                def in_this_loop(e):
+                    for f in e.facts:
+                        if is_iter_protocol_fact(f) and f[2] == frozenset(["Some"]):
+                            try:
+                                if strip_sites(strip_load(strip_load(f[1])[1])[1]) == strip_sites(it.it):
+                                    return True
+                            except Exception:
+                                pass
+                    return False
+                for e in it.evs:
+                    if not (e.kind == "call" and e.body is it.body and e.name in ("add_child", "push", "push_str", "write_str", "write_fmt") and e.args
+                            and in_this_loop(e)):
+                        continue
+                    recv = strip_load(e.args[0])
+                    made_before = recv[0] == "call" and len(recv) > 3 and isinstance(recv[3], int) and recv[3] != it.site[0] and \
+                        it.body.dominates((recv[3], 0), (it.site[0], 0))
+                    if not made_before or any(is_iter_protocol_fact(f) and f[2] == frozenset(["Some"]) and
+                                              mentions(f, lambda x: x[0] == "field" and x[2] == "Vertex::edges") for f in e.facts):
+                        continue        # appended to the per-vertex element, or inside the walk over the vertex's edges
+                    n_out += 1
+                    sets = [f[2] for f in e.facts if f[0] == "in" and strip_load(f[1])[0] == "discr" and
+                            mentions(f[1], lambda x: x[0] == "field" and x[2] == "Vertex::persistence") and f[2] <= ALLV]
+                    cov = ALLV
+                    for st in sets:
+                        cov = cov & st
+                    cover = cover | cov
+                if n_out and cover != ALLV:
+                    R.bad("XP1", "XP1/%s/entry-depends-on-data" % label, it.where(),
+                          "a present vertex gets its entry only if its read status is in %s: vertices without data (or with data already read) are "
+                          "missing from the listing" % sorted(cover))
+                    continue
             if ok:
                 R.ok("XP1", it.where(), "%s lists a slot only if its tag is not 0 (%s)" % (label, how))
             else:
@@ -595,12 +631,33 @@ def in1(F, R):
             if strip_sites(deref_item(m.args[1])) == strip_sites(deref_item(tgt)) and m.body is e.body and \
                     m.body.dominates(m.site, e.site):
                 marked = True
+        # the descent continues with the *same* visited set: a copy forgets what a sibling's subtree visited
+        shared = all(strip_load(unload(a))[0] == "param" or strip_load(a)[0] == "param" for a in seen_arg) and \
+            not any(mentions(a, lambda x: x[0] == "call" and x[1].split("::")[-1] in ("clone", "to_owned", "cloned", "new", "default")) for a in seen_arg)
         if not marked:
             R.bad("IN1", "IN1/Sodg::inspect/visited-not-marked", e.where(),
                   "a vertex is never recorded as visited before the descent continues: a cycle is walked forever")
+        elif not shared:
+            R.bad("IN1", "IN1/Sodg::inspect/visited-set-not-shared", e.where(),
+                  "the recursive call does not get the visited set itself (%s): what one subtree visited is unknown to the next, and a vertex "
+                  "with two parents is listed twice" % [show(a, e.body)[:60] for a in seen_arg])
         else:
             R.ok("IN1", e.where(), "recursive descent guarded by !seen.contains(target); vertex marked before descending")
     R.floor("IN1", "recursive calls in the inspect descent", len(calls), 1, cand.where())
+    # the descent lists what it finds: it builds no Err of its own for a vertex whose slot exists (an edge may lead into a group that
+    # was collected since — the slot is still there)
+    for site, kind, st in cand.sites():
+        if not (kind == "stmt" and st["k"] == "assign" and st["rv"]["k"] == "aggregate" and st["rv"].get("variant") == "Err"):
+            continue
+        facts = cand.facts_at(site)
+        no_slot = any(f[0] == "in" and f[2] == frozenset(["None"]) and strip_load(f[1])[0] == "discr" and
+                      mentions(f[1], lambda x: x[0] == "field" and x[2] == "Sodg::vertices") for f in facts)
+        beyond = any(f[0] == "cmp" and f[1] == "<=" and strip_load(f[2])[0] == "call" and strip_load(f[2])[1].split("::")[-1] == "capacity" and
+                     strip_load(f[3])[0] == "param" for f in facts)
+        if not (no_slot or beyond):
+            R.bad("IN1", "IN1/Sodg::inspect/own-error", cand.where(site),
+                  "the descent refuses a vertex whose slot exists (an Err built here): inspect() of a present vertex fails when an edge leads "
+                  "to a vertex that is absent by now", {"guards": [show(f, cand)[:100] for f in facts if "Level" not in repr(f)][:5]})
     # the vertex the walk starts from is itself recorded as visited (otherwise a cycle back to it expands it twice):
     # the descent marks its own parameter on entry, or whoever starts the descent marks the start vertex first
     self_mark = any(m.body is cand and m.uncond and strip_sites(strip_load(m.args[1])) == ("param", 2) for m in marks)
